@@ -7,5 +7,5 @@ CONSTANTS
   B1 = 3
   TagSet <- Tags6
 SPECIFICATION Spec
-INVARIANTS StrInv RootInv
+INVARIANTS StrInv RootInv F2PackInv
 CHECK_DEADLOCK FALSE
